@@ -26,6 +26,7 @@ every emitted response must parse with M-HTTP (status line, registered code with
 no framing header twice, no header line whose name is outside the server's vocabulary (reflected text cannot add or split lines). \
 section transport: a pool of requests x write scripts (every chunk size 1..64 and 100/1000/4096, a two-chunk boundary at every byte offset of the head, random chunk sequences, Ok(0), write error after k bytes, flush error); \
 oracle = bytes accepted by the transport equal the response produced on an unlimited transport modulo the timestamp value (prefix for write errors), and no panic. \
+section transport-binary: the release binary over loopback with a client that reads slowly (default or 64-256 KiB receive buffer - smaller ones make loopback TCP itself stall on window updates -, reads of 1..65536 bytes and pauses for the first 2000 reads) - full 3 MiB bodies, single ranges, up to 1500-part multipart responses; the bytes that arrive must equal the in-process response modulo the timestamp. \
 Non-trivial = error-path response, HEAD/OPTIONS, reflected hostile value, or a short-write pattern with >= 2 chunks; distinct by case.",
         &["control characters other than CR/LF echoed inside a header value are recorded as a note, not a violation", "a non-zero Content-Length on a bodiless (HEAD/OPTIONS/204) response is judged by the no-body rule only"],
         if tier == Tier::Quick { 900 } else { 14400 },
@@ -144,6 +145,66 @@ pub fn eval_transport(ctx: &Ctx, c: &TransportCase) -> Verdict {
     ctx.judge(problems, chunks >= 2 || c.flush_err || matches!(c.script, WriteScript::ErrAfter(_) | WriteScript::Zero), classes)
 }
 
+/// The same differential over real TCP: the release binary serves the fixed docroot, the client reads slowly through a small receive
+/// buffer so that the server's socket buffer fills and its writes are accepted in pieces by the kernel.
+#[derive(Clone, Debug, Serialize, Deserialize)]
+pub struct NetCase { pub request: Bytes, pub rcvbuf: u32, pub read_chunk: u32, pub pause_every: u32, pub pause_ms: u8, pub first_pause_ms: u8 }
+
+fn net_case_strategy() -> impl Strategy<Value = NetCase> {
+    let req = prop_oneof![
+        4 => Just(Bytes(b"GET /huge.bin HTTP/1.1\r\nHost: localhost\r\n\r\n".to_vec())),
+        2 => (0u32..3_000_000, 1u32..3_000_000).prop_map(|(a, n)| Bytes(format!("GET /huge.bin HTTP/1.1\r\nRange: bytes={}-{}\r\n\r\n", a, a.saturating_add(n)).into_bytes())),
+        2 => (1usize..1500, 0u32..3_000_000).prop_map(|(k, at)| Bytes(format!("GET /huge.bin HTTP/1.1\r\nRange: bytes={}\r\n\r\n", (0..k).map(|j| { let a = (at as usize + j * 1999) % (3 << 20); format!("{}-{}", a, (a + 600).min((3 << 20) - 1)) }).collect::<Vec<_>>().join(",")).into_bytes())),
+        2 => Just(Bytes(b"GET /big.bin HTTP/1.1\r\nHost: localhost\r\n\r\n".to_vec())),
+        1 => request_pool(),
+    ];
+    (req, prop::sample::select(vec![65536u32, 262144, 0, 0]), prop::sample::select(vec![1u32, 7, 100, 1000, 4096, 65536]), prop::sample::select(vec![0u32, 1, 16, 256]), 0u8..4, prop::sample::select(vec![0u8, 5, 40]))
+        .prop_map(|(request, rcvbuf, read_chunk, pause_every, pause_ms, first_pause_ms)| NetCase { request, rcvbuf, read_chunk, pause_every, pause_ms, first_pause_ms })
+}
+
+pub fn eval_net(ctx: &Ctx, srv: &crate::fw::net::Server, c: &NetCase) -> Verdict {
+    use std::io::{Read, Write};
+    use std::os::unix::io::AsRawFd;
+    let reference = examine_bytes(c.request.0.clone(), 10000, AppKind::Real, false, Transport::default());
+    if reference.out.result.is_err() { return Verdict::passc(false, vec!["reference-run-panicked-(C04)"]); }
+    let full = mask_timestamp(&reference.out.out);
+    let mut s = match srv.connect() { Ok(s) => s, Err(e) => { ctx.inconclusive(&format!("connect: {}", e)); return Verdict::Discard; } };
+    if c.rcvbuf > 0 { let v: libc::c_int = c.rcvbuf as libc::c_int; unsafe { libc::setsockopt(s.as_raw_fd(), libc::SOL_SOCKET, libc::SO_RCVBUF, &v as *const _ as *const libc::c_void, std::mem::size_of::<libc::c_int>() as libc::socklen_t); } }
+    if s.write_all(&c.request.0).is_err() { ctx.inconclusive("write to the server failed"); return Verdict::Discard; }
+    if c.request.0.is_empty() { let _ = s.shutdown(std::net::Shutdown::Write); }
+    std::thread::sleep(std::time::Duration::from_millis(c.first_pause_ms as u64));
+    let deadline = std::time::Instant::now() + std::time::Duration::from_secs(30);
+    let mut got: Vec<u8> = Vec::with_capacity(full.len() + 64);
+    // bounded work: the slow pattern (small reads, pauses) covers the first 2000 reads / 200 pauses, the rest is drained in 64 KiB reads
+    let mut buf = vec![0u8; 65536];
+    let mut pauses = 0u32;
+    let mut reads = 0u64;
+    let closed = loop {
+        let left = deadline.saturating_duration_since(std::time::Instant::now());
+        if left.is_zero() { break false; }
+        s.set_read_timeout(Some(left)).ok();
+        let want = if reads < 2000 { (c.read_chunk.max(1) as usize).min(buf.len()) } else { buf.len() };
+        match s.read(&mut buf[..want]) {
+            Ok(0) => break true,
+            Ok(n) => { got.extend_from_slice(&buf[..n]); reads += 1; if c.pause_every > 0 && reads % c.pause_every as u64 == 0 && c.pause_ms > 0 && pauses < 200 { pauses += 1; std::thread::sleep(std::time::Duration::from_millis(c.pause_ms as u64)); } }
+            Err(e) if e.kind() == std::io::ErrorKind::Interrupted => continue,
+            Err(e) if e.kind() == std::io::ErrorKind::WouldBlock || e.kind() == std::io::ErrorKind::TimedOut => break false,
+            Err(_) => break true, // reset after the data: judged by the bytes
+        }
+    };
+    if !closed { ctx.inconclusive(&format!("the response was not complete after 30 s ({} of {} bytes read)", got.len(), full.len())); return Verdict::Discard; }
+    let got = mask_timestamp(&got);
+    let mut problems = vec![];
+    if got != full {
+        let common = got.iter().zip(full.iter()).take_while(|(a, b)| a == b).count();
+        problems.push(("response-not-delivered-in-full".into(), format!("over TCP (receive buffer {}, reads of {} bytes) {} bytes arrived where the response has {}; first difference at byte {}; request {}", c.rcvbuf, c.read_chunk, got.len(), full.len(), common, crate::fw::util::lossy(&c.request.0, 80))));
+    }
+    let mut classes = vec!["real-tcp"];
+    if full.len() > 1 << 20 { classes.push("response-over-1-MiB"); }
+    if c.read_chunk <= 100 { classes.push("small-reads"); }
+    ctx.judge(problems, full.len() > 65536, classes)
+}
+
 pub fn run(ctx: &Ctx) {
     crate::fw::inproc::init_env();
     let _tree = match fixed_docroot() { Ok(t) => t, Err(e) => { ctx.inconclusive(&format!("docroot: {}", e)); return; } };
@@ -166,12 +227,20 @@ pub fn run(ctx: &Ctx) {
             }
         }
     }
+    match crate::fw::net::Server::start(&crate::fw::net::ServerOpts::new(&_tree.root, 2)) {
+        Err(e) => ctx.inconclusive(&format!("real binary did not start: {}", e)),
+        Ok(srv) => ctx.prop("transport-binary", ctx.share(ctx.scale(160, 6000)), net_case_strategy(), |c| eval_net(ctx, &srv, c)),
+    }
     std::env::set_current_dir("/").ok();
 }
 
 pub fn replay(ctx: &Ctx, section: &str, case: &Value) -> Verdict {
     crate::fw::inproc::init_env();
     let _tree = match fixed_docroot() { Ok(t) => t, Err(e) => return Verdict::fail("replay-docroot-failed", e.to_string()) };
+    if section == "transport-binary" {
+        let srv = match crate::fw::net::Server::start(&crate::fw::net::ServerOpts::new(&_tree.root, 2)) { Ok(s) => s, Err(e) => return Verdict::fail("replay-binary-did-not-start", e) };
+        return match serde_json::from_value::<NetCase>(case.clone()) { Ok(c) => eval_net(ctx, &srv, &c), Err(e) => Verdict::fail("replay-unreadable", e.to_string()) };
+    }
     if section.starts_with("transport") {
         return match serde_json::from_value::<TransportCase>(case.clone()) { Ok(c) => eval_transport(ctx, &c), Err(e) => Verdict::fail("replay-unreadable", e.to_string()) };
     }
